@@ -24,16 +24,16 @@ from .. import tlc
 from ..core import MachineryError, pmap
 
 ALPHA_Q = ['&', '<', '>', 'Q', ';', '#', '-', 'sp', 'hi', 'x', 'amp', 'lt', 'b', 'width', '233', '/']
-ALPHA_T = ALPHA_Q + ['=', '!', 'script', 'quot', 'em', '34']
-WORDS = ['x', 'amp', 'lt', 'gt', 'quot', 'b', 'width', 'height', 'depth', '233', '34', 'em', 'script']
-CHAR = {'Q': '"', 'sp': ' ', 'hi': '\u00e9'}
-TEXSYM = {'&': '\\&', '#': '\\#', 'Q': '"', 'sp': ' ', 'hi': '\u00e9'}
+ALPHA_T = ALPHA_Q + ['=', '!', 'script', 'quot', 'em', '34', 'hi2']
+WORDS = ['x', 'amp', 'lt', 'gt', 'quot', 'b', 'width', 'height', 'depth', '233', '34', 'em', 'script', '119964', 'hr', 'id']
+CHAR = {'Q': '"', 'sp': ' ', 'hi': '\u00e9', 'hi2': '\U0001d49c'}
+TEXSYM = {'&': '\\&', '#': '\\#', 'Q': '"', 'sp': ' ', 'hi': '\u00e9', 'hi2': '\U0001d49c'}
 LEGACY = ['quot', 'amp', 'lt', 'gt']
 
 CFG = '''CONSTANTS
   Alphabet = {%s}
   WordSyms = {%s}
-  DigitSyms = {"233", "34"}
+  DigitSyms = {"233", "34", "119964"}
   MaxLen = %d
   Contexts = {"content", "attr"}
   HighModes = {TRUE, FALSE}
@@ -47,7 +47,7 @@ INVARIANT HighCharsOnlyChangeBytes
 %s
 '''
 
-POSITIONS = ['text', 'footnote', 'title', 'subtitle', 'item', 'descterm', 'cell', 'caption', 'verbatim', 'verb', 'emph', 'indexkey', 'bib', 'doctitle']
+POSITIONS = ['text', 'footnote', 'title', 'subtitle', 'item', 'descterm', 'cell', 'caption', 'verbatim', 'verb', 'emph', 'indexkey', 'bib', 'doctitle', 'boxed']
 
 
 def q(s):
@@ -79,15 +79,23 @@ def usable(sym, pos):
     return True
 
 
-def build_doc(slots):
+RAWS = [['<', 'b', '>', 'x', '<', '/', 'b', '>'], ['<', 'hr', '/', '>'], ['&', 'lt', ';'], ['<', 'b', 'sp', 'id', '=', 'Q', 'x', 'Q', '>', 'x', '<', '/', 'b', '>']]
+
+
+def build_doc(slots, raw=None):
     """slots: list of (k, pos, sym).  One document: document title, sections with subsections and the body positions"""
     by = {}
     for k, pos, sym in slots:
         by.setdefault(pos, []).append((k, sym))
 
     def M(k, pos, sym):
+        if pos == 'boxed':
+            # the text is a leaf of its own: the markers are outside the box
+            return 'Xq%dq:\\textit{%s}:Xr%dr' % (k, tex(sym, pos), k)
         return 'Xq%dq:%s:Xr%dr' % (k, tex(sym, pos), k)
     out = ['\\documentclass{article}\n\\usepackage{makeidx}\\makeindex\n']
+    if raw:
+        out.append('\\usepackage{html}\n')
     dt = by.get('doctitle', [])
     if dt:
         out.append('\\title{%s}\\author{A}\\date{D}\n' % M(dt[0][0], 'doctitle', dt[0][1]))
@@ -95,13 +103,16 @@ def build_doc(slots):
     if dt:
         out.append('\\maketitle\n')
     out.append('start\n\n')
+    if raw:
+        # the same characters as deliberate markup, earlier in the document
+        out.append('\\begin{rawhtml}%s\\end{rawhtml}\n\n' % chars(raw))
     titles = by.get('title', [])
     subs = by.get('subtitle', [])
     body = []
-    for pos in ('text', 'footnote', 'item', 'descterm', 'cell', 'caption', 'verbatim', 'verb', 'emph', 'indexkey', 'bib'):
+    for pos in ('text', 'boxed', 'footnote', 'item', 'descterm', 'cell', 'caption', 'verbatim', 'verb', 'emph', 'indexkey', 'bib'):
         for k, sym in by.get(pos, []):
             m = M(k, pos, sym)
-            if pos == 'text':
+            if pos in ('text', 'boxed'):
                 body.append('%s\n\n' % m)
             elif pos == 'footnote':
                 body.append('w\\footnote{%s}\n\n' % m)
@@ -225,6 +236,8 @@ def tokenise(raw):
             t = 'Q'
         elif t == '\u00e9':
             t = 'hi'
+        elif t == '\U0001d49c':
+            t = 'hi2'
         elif ord(t[0]) > 127:
             t = '#%d' % ord(t)          # any other character above 127 is named by its code, as Dec names numeric references
         elif t.isalpha() and prev == '&':
@@ -263,6 +276,8 @@ def analyse(files, slots, high, pos_of):
                 bad.append(('content:lost-end', k, '%s: the text after marker %d never reaches its end marker: %r' % (fn, k, seg)))
                 continue
             seg = fl.flat[m.end():end]
+            if pos_of.get(k) == 'boxed' and seg.startswith('\0') and seg.endswith('\0') and len(seg) >= 2:
+                seg = seg[1:-1]         # the box's own element
             if '\0' in seg:
                 bad.append(('content:markup', k, '%s: part of text %d was parsed as markup: %r' % (fn, k, seg.replace('\0', '<TAG>'))))
             elif ws(seg) != ws(slots[k][1]):
@@ -288,6 +303,8 @@ def analyse(files, slots, high, pos_of):
                 raw = raw.split('Xq')[0]
             else:
                 raw = text[m.end():end]
+            if pos_of.get(k) == 'boxed':
+                raw = re.sub(r'^\s*<[^<>]*>', '', re.sub(r'</[^<>]*>\s*$', '', raw))
             occ.append((k, ctx, tokenise(raw)))
     for k in slots:
         if not found.get(k) and pos_of[k] != 'indexkey':
@@ -297,8 +314,9 @@ def analyse(files, slots, high, pos_of):
 
 def render_job(job):
     from . import c13
-    slots, renderer, theme, high = job
-    src = build_doc(slots)
+    slots, renderer, theme, high = job[:4]
+    raw = job[4] if len(job) > 4 else None
+    src = build_doc(slots, raw)
     ov = {('files', 'split-level'): 1, ('general', 'copy-theme-extras'): False, ('files', 'escape-high-chars'): high}
     if theme != 'default':
         ov[('general', 'theme')] = theme
@@ -358,7 +376,7 @@ def run(chk):
     # slots: every text in every position
     configs = [('HTML5', 'default', False), ('HTML5', 'default', True), ('HTML5', 'minimal', False), ('XHTML', 'default', False), ('XHTML', 'default', True)]
     jobs = []
-    per_doc = {'text': 6, 'footnote': 4, 'title': 4, 'subtitle': 4, 'item': 4, 'descterm': 4, 'cell': 4, 'caption': 3, 'verbatim': 4, 'verb': 4, 'emph': 4, 'indexkey': 3, 'bib': 3, 'doctitle': 1}
+    per_doc = {'text': 6, 'footnote': 4, 'title': 4, 'subtitle': 4, 'item': 4, 'descterm': 4, 'cell': 4, 'caption': 3, 'verbatim': 4, 'verb': 4, 'emph': 4, 'indexkey': 3, 'bib': 3, 'doctitle': 1, 'boxed': 4}
     budget = 1400 if tier == 'quick' else 40000
     pools = dict((p, [t for t in texts if usable(t, p)]) for p in POSITIONS)
     cursor = dict((p, 0) for p in POSITIONS)
@@ -382,11 +400,23 @@ def run(chk):
         jobs.append((slots, cfgi[0], cfgi[1], cfgi[2]))
         ndocs += 1
     chk.exhaustive = all(cursor[p] >= len(pools[p]) for p in POSITIONS)
+    # documents that also use the characters of a text as deliberate raw markup (html package) before the text
+    for raw in RAWS:
+        for cfgi in configs:
+            k = 0
+            slots = []
+            for p in POSITIONS:
+                if usable(raw, p):
+                    for t in ((raw,) if p == 'doctitle' else (raw, raw)):
+                        k += 1
+                        slots.append((k, p, t))
+            jobs.append((slots, cfgi[0], cfgi[1], cfgi[2], raw))
     results = pmap(render_job, jobs, chunksize=4)
     lines = []
     lineinfo = []
     seen = set()
-    for (slots, rend, theme, high), (bad, occ, src) in zip(jobs, results):
+    for job, (bad, occ, src) in zip(jobs, results):
+        slots, rend, theme, high = job[:4]
         sl = dict((k, (pos, sym)) for k, pos, sym in slots)
         for k, pos, sym in slots:
             chk.case([sym, pos, rend, theme, high], any(c in ('&', '<', '>', 'Q') for c in sym),
@@ -415,7 +445,7 @@ def run(chk):
         with open(tf, 'w') as f:
             f.write('\n'.join(lines) + '\n')
         wordset = set(WORDS)
-        digits = set(['233', '34'])
+        digits = set(['233', '34', '119964'])
         for ln in lines:
             for t in json.loads(ln)['raw'] + json.loads(ln)['want']:
                 if t.isalpha() and t.isascii():
